@@ -1208,6 +1208,123 @@ pub unsafe fn bad_string_sweep() -> Result<u64, String> {
     Ok(calls)
 }
 
+/// The last-error slot belongs to the calling thread (the harness itself relies on it: it drives
+/// the API from 16 threads). Two threads, strictly serialised by channels: thread A makes a failing
+/// call; thread B then does one of {nothing, a failing call, a failing call + fetch, a successful
+/// call, a fetch}; A then fetches: it must get the message of its own failure (the text the same
+/// call leaves when made alone), B's slot must hold what B's own calls left, and a thread that
+/// never failed sees no message — also after the failing thread has exited. Returns calls made.
+pub fn thread_sweep() -> Result<u64, String> {
+    use std::sync::mpsc::channel;
+    // failing calls with distinct messages (index -> call)
+    fn failing(k: usize) {
+        unsafe {
+            match k {
+                0 => {
+                    let l = Box::into_raw(haystack_value_make_list());
+                    let _ = haystack_value_remove_list_entry_at(l, 3);
+                    haystack_value_destroy(l);
+                }
+                1 => {
+                    let _ = haystack_value_make_number_with_unit(1.0, cs(b"notAUnit").as_ptr());
+                }
+                2 => {
+                    let _ = haystack_value_from_zinc_string(cs(b"{a:").as_ptr());
+                }
+                3 => {
+                    let n = Box::into_raw(haystack_value_make_number(1.0));
+                    let _ = take_string(haystack_value_get_str_value(n));
+                    haystack_value_destroy(n);
+                }
+                _ => {
+                    let _ = haystack_value_from_json_string(cs(b"{\"_kind\":").as_ptr());
+                }
+            }
+        }
+    }
+    fn succeeding() {
+        unsafe {
+            let n = Box::into_raw(haystack_value_make_number(1.0));
+            let _ = haystack_value_is_number(n);
+            haystack_value_destroy(n);
+        }
+    }
+    let alone: Vec<Option<String>> = (0..5)
+        .map(|k| {
+            std::thread::spawn(move || {
+                failing(k);
+                unsafe { take_error() }
+            })
+            .join()
+            .unwrap()
+        })
+        .collect();
+    if alone.iter().any(|m| m.is_none()) {
+        return Err(format!("thread sweep: a failing call leaves no message even alone: {alone:?}"));
+    }
+    let mut calls = 0u64;
+    for ka in 0..5usize {
+        for kb in 0..5usize {
+            for b_mode in 0..5usize {
+                // b_mode: 0 nothing, 1 failing, 2 failing + fetch, 3 successful call, 4 fetch only
+                let (to_b, b_rx) = channel::<u8>();
+                let (to_a, a_rx) = channel::<Option<String>>();
+                let b = std::thread::spawn(move || {
+                    let _ = b_rx.recv(); // A has failed
+                    let mut seen: Option<String> = None;
+                    match b_mode {
+                        1 => failing(kb),
+                        2 => {
+                            failing(kb);
+                            seen = unsafe { take_error() };
+                        }
+                        3 => succeeding(),
+                        4 => seen = unsafe { take_error() },
+                        _ => {}
+                    }
+                    let _ = to_a.send(seen);
+                    let _ = b_rx.recv(); // A has fetched
+                    unsafe { take_error() }
+                });
+                failing(ka);
+                let _ = to_b.send(1);
+                let b_seen = a_rx.recv().map_err(|e| e.to_string())?;
+                let a_msg = unsafe { take_error() };
+                let a_again = unsafe { take_error() };
+                let _ = to_b.send(2);
+                let b_left = b.join().map_err(|_| "thread B panicked".to_string())?;
+                calls += 4;
+                let what = format!("thread A fails with call #{ka}, then thread B (mode {b_mode}, call #{kb}), then A fetches");
+                if a_msg != alone[ka] {
+                    return Err(format!("error-slot-not-per-thread: {what}: A gets {a_msg:?}, the same call alone leaves {:?}", alone[ka]));
+                }
+                if a_again.is_some() {
+                    return Err(format!("error-slot-not-per-thread: {what}: A can fetch a second message {a_again:?}"));
+                }
+                let (want_seen, want_left) = match b_mode {
+                    1 => (None, alone[kb].clone()),
+                    2 => (alone[kb].clone(), None),
+                    _ => (None, None),
+                };
+                if b_seen != want_seen || b_left != want_left {
+                    return Err(format!("error-slot-not-per-thread: {what}: B fetched {b_seen:?} / was left with {b_left:?}, its own calls leave {want_seen:?} / {want_left:?}"));
+                }
+            }
+        }
+    }
+    // a thread that failed and exited without fetching leaves nothing behind for later threads
+    for k in 0..5usize {
+        std::thread::spawn(move || failing(k)).join().map_err(|_| "thread panicked".to_string())?;
+        let later = std::thread::spawn(|| unsafe { take_error() }).join().map_err(|_| "thread panicked".to_string())?;
+        let here = unsafe { take_error() };
+        calls += 2;
+        if later.is_some() || here.is_some() {
+            return Err(format!("error-slot-not-per-thread: after a thread failed (call #{k}) and exited, another thread finds {later:?} and this thread {here:?}"));
+        }
+    }
+    Ok(calls)
+}
+
 /// Failing calls whose error message quotes long caller text: every text-taking entry point is
 /// given malformed input built from 1-, 2-, 3- and 4-byte characters, preceded by 0..3 ASCII
 /// bytes, of total sizes around 60, 120, 250..260, 510..515, 1020..1030, 4090..4100 and 65 536
